@@ -104,6 +104,10 @@ type c20File struct {
 	HeaderTight bool      `json:"header_tight,omitempty"` // header directly above the package clause (package doc)
 	Items       []c20Item `json:"items,omitempty"`
 	NoNL        bool      `json:"no_nl,omitempty"` // no newline at the end of the file
+	// Link: the file is present in the tree as a symbolic link (as a source shared between trees
+	// is): 1 = to "<name>.src" next to it, 2 = to a file outside the tree. The go tool follows
+	// such links, the file is part of the package like any other.
+	Link int `json:"link,omitempty"`
 }
 
 type c20Dir struct {
@@ -450,6 +454,9 @@ func c20Classify(c c20Case) (nontrivial bool, labels []string) {
 			}
 			if f.NoNL {
 				add("no-final-newline")
+			}
+			if f.Link != 0 {
+				add("source-file-is-a-symbolic-link")
 			}
 			look("file-header", f.Kind, f.Header)
 			annotatedFuncs := 0
@@ -943,8 +950,29 @@ func c20Run(c c20Case) *vlib.Failure {
 		for _, f := range d.Files {
 			text := f.render()
 			bytesWritten += len(text)
-			if err := os.WriteFile(filepath.Join(dp, f.Name), []byte(text), 0o644); err != nil {
+			target := filepath.Join(dp, f.Name)
+			switch f.Link {
+			case 1:
+				target += ".src"
+			case 2:
+				shared := root + "-shared"
+				if err := os.MkdirAll(shared, 0o755); err != nil {
+					panic("c20: mkdir: " + err.Error())
+				}
+				defer os.RemoveAll(shared)
+				target = filepath.Join(shared, fmt.Sprintf("%d-%s.src", goFiles+bytesWritten, f.Name))
+			}
+			if err := os.WriteFile(target, []byte(text), 0o644); err != nil {
 				panic("c20: write: " + err.Error())
+			}
+			if f.Link != 0 {
+				to := target
+				if f.Link == 1 {
+					to = f.Name + ".src" // relative link
+				}
+				if err := os.Symlink(to, filepath.Join(dp, f.Name)); err != nil {
+					panic("c20: symlink: " + err.Error())
+				}
 			}
 			if f.Kind == "go" {
 				goFiles++
@@ -1222,6 +1250,9 @@ func c20GenFile(t *rapid.T, dir string, names, idents map[string]bool) c20File {
 		f.Items = append(f.Items, it)
 	}
 	f.NoNL = rapid.IntRange(0, 9).Draw(t, "nonl") == 0
+	if kind != "other" && rapid.IntRange(0, 11).Draw(t, "symlink") == 0 {
+		f.Link = rapid.IntRange(1, 2).Draw(t, "linkkind")
+	}
 	c20LimitLineDirectives(&f)
 	return f
 }
